@@ -39,9 +39,14 @@ class _Rec:
         _Rec.rows.append(list(row))
 
 
+_FS = set()          # virtual file system: paths that 'exist' (opening a file for writing / appending creates it)
+
+
 class _FakeFile:
-    def __init__(self, *a, **k):
+    def __init__(self, fp=None, mode='r', *a, **k):
         self.closed = False
+        if fp is not None and mode and mode[0] in 'wa':
+            _FS.add(str(fp))
 
     def __enter__(self):
         return self
@@ -76,12 +81,18 @@ def _export(op, tl, desc_obj, atts, exists, mode, nice, csvmod, cont_mod, tw_mod
         a = desc_obj.tracts_to_dict(*atts)
         b = desc_obj.tracts_to_list(atts)
         return 'records', a + b
-    fp = '/etc/hostname' if exists else '/nonexistent_dir_c19/out.csv'
+    import pathlib
+    fp = '/virtual_c19/existing.csv' if exists else '/virtual_c19/new.csv'
+    _FS.clear()
+    if exists:
+        _FS.add(fp)
     _Rec.rows = []
     saved = (csvmod.writer, getattr(cont_mod, 'open', None), getattr(tw_mod, 'open', None))
+    saved_exists = pathlib.Path.exists
     csvmod.writer = _Rec
     cont_mod.open = _FakeFile
     tw_mod.open = _FakeFile
+    pathlib.Path.exists = lambda self_, *a, **k: str(self_) in _FS
     try:
         if op == 'tracts_to_csv':
             tl.tracts_to_csv(atts, fp, mode, nice_headers=nice)
@@ -93,6 +104,7 @@ def _export(op, tl, desc_obj, atts, exists, mode, nice, csvmod, cont_mod, tw_mod
                 return 'rows', 'BAD-COUNT', []
     finally:
         csvmod.writer = saved[0]
+        pathlib.Path.exists = saved_exists
         for m, o in ((cont_mod, saved[1]), (tw_mod, saved[2])):
             if o is None:
                 try:
